@@ -42,7 +42,7 @@ type c05Entry struct {
 }
 
 type c05Flags struct {
-	growWrapped, wrapAfterDiscard, gapAtFull, gapped, multiShard bool
+	growWrapped, wrapAfterDiscard, gapAtFull, gapped, multiShard, burst bool
 }
 
 func c05ModelAgg(model []c05Entry, w int64) (map[history.ClusterShardID]int64, int) {
@@ -101,36 +101,49 @@ func c05Exec(c c05Case) (flags c05Flags, err error) {
 	}
 	for i, op := range c.Ops {
 		switch op.K {
-		case "append":
-			gap := op.Gap
-			if gap < 1 {
-				gap = 1
+		case "append", "burst":
+			// burst: N contiguous appends in one op (an acknowledgement-less stretch: tens of thousands outstanding)
+			reps := 1
+			if op.K == "burst" {
+				reps = op.Off
+				flags.burst = true
 			}
-			pid := next + int64(gap) - 1
-			if len(model) == 0 {
-				pid = next // first entry after empty: no holes are created whatever the id
-			}
-			full := b.size == len(b.entries)
-			if full && b.head != 0 {
-				flags.growWrapped = true
-			}
-			if discarded && b.head+b.size >= len(b.entries) && b.size < len(b.entries) {
-				flags.wrapAfterDiscard = true
-			}
-			if len(model) > 0 && gap > 1 {
-				flags.gapped = true
-				if b.size+gap-1 >= len(b.entries) {
-					flags.gapAtFull = true
+			for r := 0; r < reps; r++ {
+				gap := op.Gap
+				if gap < 1 || op.K == "burst" {
+					gap = 1
 				}
-				for h := next; h < pid; h++ {
-					model = append(model, c05Entry{pid: h, hole: true})
+				pid := next + int64(gap) - 1
+				if len(model) == 0 {
+					pid = next // first entry after empty: no holes are created whatever the id
 				}
+				full := b.size == len(b.entries)
+				if full && b.head != 0 {
+					flags.growWrapped = true
+				}
+				if discarded && b.head+b.size >= len(b.entries) && b.size < len(b.entries) {
+					flags.wrapAfterDiscard = true
+				}
+				if len(model) > 0 && gap > 1 {
+					flags.gapped = true
+					if b.size+gap-1 >= len(b.entries) {
+						flags.gapAtFull = true
+					}
+					for h := next; h < pid; h++ {
+						model = append(model, c05Entry{pid: h, hole: true})
+					}
+				}
+				shi := op.Shard + r
+				sh := c05Shards[((shi%len(c05Shards))+len(c05Shards))%len(c05Shards)]
+				shardsSeen[shi%len(c05Shards)] = true
+				task := op.Task
+				if op.K == "burst" {
+					task = op.Task/2 + int64(r)
+				}
+				b.Append(pid, sh, task)
+				model = append(model, c05Entry{pid: pid, shard: sh, task: task})
+				next = pid + 1
 			}
-			sh := c05Shards[((op.Shard%len(c05Shards))+len(c05Shards))%len(c05Shards)]
-			shardsSeen[op.Shard] = true
-			b.Append(pid, sh, op.Task)
-			model = append(model, c05Entry{pid: pid, shard: sh, task: op.Task})
-			next = pid + 1
 		case "agg":
 			var w int64
 			start := next
@@ -244,13 +257,16 @@ func c05Report(st *vfshared.Stats, c c05Case, fl c05Flags) {
 	if fl.multiShard {
 		cl = append(cl, "multi_shard")
 	}
+	if fl.burst {
+		cl = append(cl, "burst_of_thousands_outstanding")
+	}
 	st.Case(vfshared.Fingerprint(fmt.Sprintf("%+v", c)), nontrivial, cl...)
 	if nontrivial && st.WantSample() {
 		st.Sample(c)
 	}
 }
 
-const c05Rule = "op sequences (append contiguous/gapped over 3 source shards, aggregate at watermarks below/inside/above/min/max, discard last-aggregate-count or arbitrary n) on the real proxyIDRingBuffer vs a slice model, compared after every step and by a full API-only scan at the end; non-trivial = the buffer grew while wrapped (head!=0), or an append wrapped after a discard, or a gapped append met a full buffer; distinct = distinct op sequences"
+const c05Rule = "op sequences (append contiguous/gapped over 3 source shards, aggregate at watermarks below/inside/above/min/max, discard last-aggregate-count or arbitrary n) ; one case in 25 mixes in bursts of 1030-66000 contiguous appends) on the real proxyIDRingBuffer vs a slice model, compared after every step and by a full API-only scan at the end; non-trivial = the buffer grew while wrapped (head!=0), or an append wrapped after a discard, or a gapped append met a full buffer; distinct = distinct op sequences"
 
 func c05Gen(t *rapid.T) c05Case {
 	c := c05Case{
@@ -258,7 +274,20 @@ func c05Gen(t *rapid.T) c05Case {
 		Base: rapid.SampledFrom([]int64{1, 1, 2, 1000, 1 << 40}).Draw(t, "base"),
 	}
 	n := rapid.IntRange(1, vfshared.Scale(60, 200)).Draw(t, "nops")
+	// one case in 25: few ops, up to three of them bursts of thousands of appends (a target that acknowledges nothing
+	// for a long stretch: the table grows far beyond its initial size)
+	bursty := rapid.IntRange(0, 24).Draw(t, "bursty") == 0
+	if bursty {
+		n = rapid.IntRange(2, 14).Draw(t, "nopsBursty")
+	}
+	bursts := 0
 	for i := 0; i < n; i++ {
+		if bursty && bursts < 3 && rapid.IntRange(0, 3).Draw(t, "burstHere") == 0 {
+			bursts++
+			c.Ops = append(c.Ops, c05Op{K: "burst", Off: rapid.SampledFrom([]int{1030, 2100, 5000, 9000, 17000, 33000, 66000}).Draw(t, "burstN"),
+				Shard: rapid.IntRange(0, 2).Draw(t, "shard"), Task: rapid.Int64().Draw(t, "task")})
+			continue
+		}
 		switch rapid.IntRange(0, 9).Draw(t, "kind") {
 		case 0, 1, 2, 3, 4:
 			gap := 1
